@@ -47,11 +47,37 @@ fn holder(w: &World, va: &cosmwasm_std::Addr) -> Option<&'static str> {
         .find(|t| w.pos_at(va, t).map(|p| !p.size.is_zero()).unwrap_or(false))
 }
 
+/// reference registry kept by the harness: addresses whose AddVamm by the owner succeeded and that
+/// were not removed since
+fn mon_registry(mon: &Value, w: &World) -> Vec<String> {
+    match mon["reg"].as_array() {
+        Some(a) => a.iter().filter_map(|x| x.as_str().map(|s| s.to_string())).collect(),
+        None => w.vamms.iter().map(|v| v.to_string()).collect(),
+    }
+}
+
 fn step_c14(m: &EngModel, w: &mut World, s: &EngSt, a: &Act, out: &mut StepOut) -> Option<EngSt> {
     let _ = m;
     w.restore(&s.snap);
     let pre_reg = registry(w);
+    let mut ref_reg = mon_registry(&s.mon, w);
     let o = apply(w, a);
+    if o.ok {
+        match a {
+            Act::AddVamm { v, .. } => {
+                let va = vamm_addr(w, *v).to_string();
+                if !ref_reg.contains(&va) {
+                    ref_reg.push(va);
+                }
+            }
+            Act::RemoveVamm { v, .. } => {
+                let va = vamm_addr(w, *v).to_string();
+                ref_reg.retain(|x| x != &va);
+            }
+            _ => {}
+        }
+    }
+    ref_reg.sort();
     out.executions += 1;
     out.tag(format!("outcome:{}:{}", a.kind(), if o.ok { "ok" } else { "err" }));
     let post = w.snapshot();
@@ -89,6 +115,16 @@ fn step_c14(m: &EngModel, w: &mut World, s: &EngSt, a: &Act, out: &mut StepOut) 
     }
     // --- registry clauses
     let reg = registry(w);
+    {
+        let mut sorted = reg.clone();
+        sorted.sort();
+        if sorted != ref_reg {
+            out.viol(
+                format!("C14:registry-differs-from-accepted-changes:{}", a.kind()),
+                format!("registry {:?} but the accepted AddVamm/RemoveVamm calls leave {:?} (after {:?})", reg, ref_reg, a),
+            );
+        }
+    }
     let mut d = reg.clone();
     d.sort();
     d.dedup();
@@ -121,7 +157,7 @@ fn step_c14(m: &EngModel, w: &mut World, s: &EngSt, a: &Act, out: &mut StepOut) 
             continue;
         }
         let open = w.vstate_at(va).open;
-        let registered = reg.contains(&va.to_string());
+        let registered = ref_reg.contains(&va.to_string());
         let h = holder(w, va).unwrap_or("alice");
         let ops: Vec<Act> = vec![
             Act::Open { t: "carol".into(), v: vi, buy: true, margin: SIZE_S.0, lev: SIZE_S.1, limit: 0 },
@@ -180,7 +216,7 @@ fn step_c14(m: &EngModel, w: &mut World, s: &EngSt, a: &Act, out: &mut StepOut) 
         }
     }
     w.restore(&post);
-    Some(EngSt { snap: post, mon: Value::Null })
+    Some(EngSt { snap: post, mon: serde_json::json!({ "reg": ref_reg }) })
 }
 
 pub fn run_c14(tier: Tier) -> i32 {
